@@ -43,7 +43,7 @@ def to_symfloat(x):
     if z is None:
         raise TypeError("not a float-like")
     if is_sym(x):
-        return SymFloat(z)
+        return SymFloat(z, _fb(x))
     return float(x)
 
 
@@ -56,13 +56,13 @@ def havoc_float():
     return SymFloat(z3.FP(f"havoc_f{_havoc_n[0]}", F64))
 
 
-def mkf(z, arith=False):
+def mkf(z, arith=False, iv=None):
     z = z3.simplify(z)
     if z3.is_fp_value(z):
         return fp_value_to_float(z)
     if arith and MODE["mode"] == "havoc":
         return havoc_float()
-    return SymFloat(z)
+    return SymFloat(z, iv)
 
 
 def fp_value_to_float(v):
@@ -91,11 +91,43 @@ def fite(c, a, b):
     return mkf(z3.If(as_z3_bool(c), fval(a), fval(b)))
 
 
-class SymFloat(core.SymFloatBase):
-    __slots__ = ("z",)
+def _fb(x):
+    """(lo, hi) float enclosure of a float-like, or None when unknown / possibly NaN."""
+    if isinstance(x, SymFloat):
+        return x.iv
+    if isinstance(x, SymInt):
+        if max(abs(x.lo), abs(x.hi)) < (1 << 53):
+            return (float(x.lo), float(x.hi))
+        return None
+    if isinstance(x, SymBool):
+        return (0.0, 1.0)
+    if isinstance(x, (bool, int, float)):
+        f = float(x)
+        return None if f != f else (f, f)
+    return None
 
-    def __init__(self, z):
+
+def _corners(op, a, b):
+    """Interval of op over two enclosures: by monotonicity of IEEE rounding the corner results enclose every result."""
+    if a is None or b is None:
+        return None
+    try:
+        c = [op(x, y) for x in a for y in b]
+    except (ZeroDivisionError, OverflowError):
+        return None
+    if any(v != v or v in (math.inf, -math.inf) for v in c):
+        return None
+    return (min(c), max(c))
+
+
+class SymFloat(core.SymFloatBase):
+    __slots__ = ("z", "iv")
+
+    def __init__(self, z, iv=None):
+        if core._ctx is not None:
+            core._ctx.fp_used = True
         self.z = z
+        self.iv = iv          # (lo, hi): sound enclosure, excludes NaN/inf; None = unknown
 
     __hash__ = None
 
@@ -103,7 +135,10 @@ class SymFloat(core.SymFloatBase):
         zo = fval(o)
         if zo is None:
             return NotImplemented
-        return mkf(f(RNE, zo, self.z) if swap else f(RNE, self.z, zo), arith=True)
+        import operator
+        pyop = {z3.fpAdd: operator.add, z3.fpSub: operator.sub, z3.fpMul: operator.mul}[f]
+        a, b = (_fb(o), self.iv) if swap else (self.iv, _fb(o))
+        return mkf(f(RNE, zo, self.z) if swap else f(RNE, self.z, zo), arith=True, iv=_corners(pyop, a, b))
 
     def __add__(self, o):
         return self._bin(o, z3.fpAdd)
@@ -125,31 +160,48 @@ class SymFloat(core.SymFloatBase):
         zo = fval(o)
         if zo is None:
             return NotImplemented
-        if mk_bool(z3.fpIsZero(zo)):  # forks when the divisor may be zero
+        bo = _fb(o)
+        nz = bo is not None and (bo[0] > 0 or bo[1] < 0)
+        if not nz and mk_bool(z3.fpIsZero(zo)):  # forks when the divisor may be zero
             raise ZeroDivisionError("float division by zero")
-        return mkf(z3.fpDiv(RNE, self.z, zo), arith=True)
+        import operator
+        return mkf(z3.fpDiv(RNE, self.z, zo), arith=True, iv=_corners(operator.truediv, self.iv, bo) if nz else None)
 
     def __rtruediv__(self, o):
         zo = fval(o)
         if zo is None:
             return NotImplemented
-        if mk_bool(z3.fpIsZero(self.z)):
+        nz = self.iv is not None and (self.iv[0] > 0 or self.iv[1] < 0)
+        if not nz and mk_bool(z3.fpIsZero(self.z)):
             raise ZeroDivisionError("float division by zero")
-        return mkf(z3.fpDiv(RNE, zo, self.z), arith=True)
+        import operator
+        return mkf(z3.fpDiv(RNE, zo, self.z), arith=True, iv=_corners(operator.truediv, _fb(o), self.iv) if nz else None)
 
     def __neg__(self):
-        return mkf(z3.fpNeg(self.z))
+        return mkf(z3.fpNeg(self.z), iv=None if self.iv is None else (-self.iv[1], -self.iv[0]))
 
     def __pos__(self):
         return self
 
     def __abs__(self):
-        return mkf(z3.fpAbs(self.z))
+        iv = None
+        if self.iv is not None:
+            lo, hi = self.iv
+            iv = (0.0 if lo <= 0 <= hi else min(abs(lo), abs(hi)), max(abs(lo), abs(hi)))
+        return mkf(z3.fpAbs(self.z), iv=iv)
 
     def _cmp(self, o, f):
         zo = fval(o)
         if zo is None:
             return NotImplemented
+        a, b = self.iv, _fb(o)
+        if a is not None and b is not None:        # decided by the enclosures: no solver call
+            q = {z3.fpLT: (a[1] < b[0], a[0] >= b[1]), z3.fpLEQ: (a[1] <= b[0], a[0] > b[1]),
+                 z3.fpGT: (a[0] > b[1], a[1] <= b[0]), z3.fpGEQ: (a[0] >= b[1], a[1] < b[0])}[f]
+            if q[0]:
+                return True
+            if q[1]:
+                return False
         return mk_bool(f(self.z, zo))
 
     def __lt__(self, o):
@@ -178,16 +230,20 @@ class SymFloat(core.SymFloatBase):
 
     def __int__sym__(self):
         """int(x): truncation toward zero; raises like CPython on nan/inf; Unsupported beyond 62 bits."""
-        if mk_bool(z3.fpIsNaN(self.z)):
-            raise ValueError("cannot convert float NaN to integer")
-        if mk_bool(z3.fpIsInf(self.z)):
-            raise OverflowError("cannot convert float infinity to integer")
         big = float(1 << 61)
-        if mk_bool(z3.Or(z3.fpGEQ(self.z, z3.FPVal(big, F64)), z3.fpLEQ(self.z, z3.FPVal(-big, F64)))):
-            raise Unsupported("int(float) beyond 61 bits")
+        if self.iv is not None and -big < self.iv[0] and self.iv[1] < big:
+            lo, hi = math.trunc(self.iv[0]), math.trunc(self.iv[1])
+        else:
+            if mk_bool(z3.fpIsNaN(self.z)):
+                raise ValueError("cannot convert float NaN to integer")
+            if mk_bool(z3.fpIsInf(self.z)):
+                raise OverflowError("cannot convert float infinity to integer")
+            if mk_bool(z3.Or(z3.fpGEQ(self.z, z3.FPVal(big, F64)), z3.fpLEQ(self.z, z3.FPVal(-big, F64)))):
+                raise Unsupported("int(float) beyond 61 bits")
+            lo, hi = -(1 << 61), 1 << 61
         if MODE["mode"] == "havoc":
-            return ctx().fresh_int(f"havoc_i{len(ctx().ph) + ctx().nvars}", -(1 << 61), 1 << 61)
-        return mk_int(z3.fpToSBV(RTZ, self.z, z3.BitVecSort(core.W)), -(1 << 61), 1 << 61)
+            return ctx().fresh_int(f"havoc_i{len(ctx().ph) + ctx().nvars}", lo, hi)
+        return mk_int(z3.fpToSBV(RTZ, self.z, z3.BitVecSort(core.W)), lo, hi)
 
     def __int__(self):
         raise Unsupported("int() of symbolic float through a C boundary")
@@ -200,17 +256,21 @@ class SymFloat(core.SymFloatBase):
 
     def __round__(self, n=None):
         if n is None:
-            if mk_bool(z3.fpIsNaN(self.z)):
-                raise ValueError("cannot convert float NaN to integer")
-            if mk_bool(z3.fpIsInf(self.z)):
-                raise OverflowError("cannot convert float infinity to integer")
             big = float(1 << 61)
-            if mk_bool(z3.Or(z3.fpGEQ(self.z, z3.FPVal(big, F64)), z3.fpLEQ(self.z, z3.FPVal(-big, F64)))):
-                raise Unsupported("round(float) beyond 61 bits")
+            if self.iv is not None and -big < self.iv[0] and self.iv[1] < big:
+                lo, hi = builtins.round(self.iv[0]), builtins.round(self.iv[1])
+            else:
+                if mk_bool(z3.fpIsNaN(self.z)):
+                    raise ValueError("cannot convert float NaN to integer")
+                if mk_bool(z3.fpIsInf(self.z)):
+                    raise OverflowError("cannot convert float infinity to integer")
+                if mk_bool(z3.Or(z3.fpGEQ(self.z, z3.FPVal(big, F64)), z3.fpLEQ(self.z, z3.FPVal(-big, F64)))):
+                    raise Unsupported("round(float) beyond 61 bits")
+                lo, hi = -(1 << 61), 1 << 61
             if MODE["mode"] == "havoc":
-                return ctx().fresh_int(f"havoc_r{len(ctx().ph) + ctx().nvars}", -(1 << 61), 1 << 61)
+                return ctx().fresh_int(f"havoc_r{len(ctx().ph) + ctx().nvars}", lo, hi)
             r = z3.fpRoundToIntegral(RNE, self.z)     # Python round(): half to even
-            return mk_int(z3.fpToSBV(RTZ, r, z3.BitVecSort(core.W)), -(1 << 61), 1 << 61)
+            return mk_int(z3.fpToSBV(RTZ, r, z3.BitVecSort(core.W)), lo, hi)
         if MODE["mode"] == "havoc":
             if mk_bool(z3.Or(z3.fpIsNaN(self.z), z3.fpIsInf(self.z))):
                 return self          # round(nan/inf, n) returns the value itself
